@@ -140,9 +140,20 @@ fn load_corpus(m: &BTreeMap<String, String>) -> corpus::Corpus {
     }
 }
 
+/// The directed seeds: from the file the driver wrote once (`--directed`), else computed
+/// (building and validating ~45 000 seeds takes about two seconds - too much per session).
+fn load_directed(m: &BTreeMap<String, String>) -> Vec<req::Request> {
+    if let Some(p) = m.get("directed") {
+        let text = std::fs::read_to_string(p).unwrap_or_else(|e| harness_error(&format!("{p}: {e}")));
+        serde_json::from_str(&text).unwrap_or_else(|e| harness_error(&format!("{p}: {e}")))
+    } else {
+        directed::directed()
+    }
+}
+
 fn cmd_session(m: &BTreeMap<String, String>) {
     let corpus = load_corpus(m);
-    let dir = directed::directed();
+    let dir = load_directed(m);
     let pool = gen::Pool {
         corpus: &corpus,
         directed: &dir,
@@ -439,7 +450,7 @@ pub fn debug_valid(s: &str) {
 /// and the native output digest.
 fn cmd_emit_crate(m: &BTreeMap<String, String>) {
     let corpus = load_corpus(m);
-    let dir = directed::directed();
+    let dir = load_directed(m);
     let pool = gen::Pool {
         corpus: &corpus,
         directed: &dir,
